@@ -455,8 +455,11 @@ package tabular
 //@ iface ErrorReceiver.AddError
 //@   dispatch (*ErrorContainer).AddError, (*Row).AddError
 
+//@ -- cbListOf(set, t): the callback list invokePropertyCallbacks runs for time t
+//@ spec cbListOf(set callbackSet, t int) []PropertyCallback = t == 0 ? set.addTime : (t == 1 ? set.preCellRenderTime : (t == 2 ? set.renderTime : set.postCellRenderTime))
+
 //@ func invokePropertyCallbacks
-//@   tags C11,C13,C09
+//@   tags C11,C13,C10,C09
 //@   requires [valid-time] 0 <= t && t <= 3
 //@   requires [owner] ownerOK(owner)
 //@   requires [receiver-keeps-errors] recvOK(errTaker)
@@ -466,6 +469,8 @@ package tabular
 //@   requires [callbacks-live] forall i int :: {set.postCellRenderTime[i]} 0 <= i && i < len(set.postCellRenderTime) ==> set.postCellRenderTime[i] != nil
 //@   assigns loc(propertyImpl.properties, propsCell(owner)), new(valueProperty), ghost cbErrN, ghost cbErrLog, ghost cbCallN, ghost cbCallSelf, ghost cbCallOwner, when dyn(errTaker) == type[*Row]: loc(Row.ErrorContainer, fldloc(errTaker.(*Row), 0)), new(ErrorContainer), when ecOf(errTaker, heap[Row.ErrorContainer]) != nil: ecOf(errTaker, heap[Row.ErrorContainer]).errors_, when ecOf(errTaker, heap[Row.ErrorContainer]) != nil: elemscap(ecOf(errTaker, heap[Row.ErrorContainer]).errors_)
 //@   ensures [owner-props-ok] ownerOK(owner)
+//@   ensures [every-callback-once-in-list-order] cbCallN == old(cbCallN) + len(cbListOf(set, t)) && (forall m int :: {cbCallSelf[m]} old(cbCallN) <= m && m < cbCallN ==> cbCallSelf[m] === cbListOf(set, t)[m - old(cbCallN)] && cbCallOwner[m] === owner) @C13,C10
+//@   ensures [call-log-prefix] forall j int :: {cbCallSelf[j]} j < old(cbCallN) ==> cbCallSelf[j] === old(cbCallSelf[j]) && cbCallOwner[j] === old(cbCallOwner[j]) @C13
 //@   ensures [other-chains-untouched] chainsStable(old(heap[valueProperty.chain]), old(heap[valueProperty.key]), old(heap[valueProperty.val]), heap[valueProperty.chain], heap[valueProperty.key], heap[valueProperty.val], old(alloc))
 //@   ensures [receiver] recvOK(errTaker) && (cbErrN > old(cbErrN) || old(ecOf(errTaker, heap[Row.ErrorContainer])) != nil ==> ecOf(errTaker, heap[Row.ErrorContainer]) != nil) && (old(ecOf(errTaker, heap[Row.ErrorContainer])) != nil ==> ecOf(errTaker, heap[Row.ErrorContainer]) == old(ecOf(errTaker, heap[Row.ErrorContainer])))
 //@   ensures [none-lost-none-duplicated] cbErrN >= old(cbErrN) && errCount(ecOf(errTaker, heap[Row.ErrorContainer]), heap[ErrorContainer.errors_]) == errCount(old(ecOf(errTaker, heap[Row.ErrorContainer])), old(heap[ErrorContainer.errors_])) + (cbErrN - old(cbErrN))
@@ -476,6 +481,9 @@ package tabular
 //@   ensures [new-container-fresh] old(ecOf(errTaker, heap[Row.ErrorContainer])) == nil && ecOf(errTaker, heap[Row.ErrorContainer]) != nil ==> fresh(ecOf(errTaker, heap[Row.ErrorContainer])) && fresh(ecOf(errTaker, heap[Row.ErrorContainer]).errors_)
 //@   ensures [arr] old(ecOf(errTaker, heap[Row.ErrorContainer])) != nil ==> (ecOf(errTaker, heap[Row.ErrorContainer]).errors_.arr == old(ecOf(errTaker, heap[Row.ErrorContainer]).errors_.arr) && ecOf(errTaker, heap[Row.ErrorContainer]).errors_.off == old(ecOf(errTaker, heap[Row.ErrorContainer]).errors_.off) && ecOf(errTaker, heap[Row.ErrorContainer]).errors_.cap == old(ecOf(errTaker, heap[Row.ErrorContainer]).errors_.cap)) || fresh(ecOf(errTaker, heap[Row.ErrorContainer]).errors_)
 //@   loop#1 invariant -1 <= rangeindex && rangeindex < len(cbList)
+//@   loop#1 invariant cbList === cbListOf(set, t) && cbCallN == old(cbCallN) + rangeindex + 1
+//@   loop#1 invariant forall m int :: {cbCallSelf[m]} old(cbCallN) <= m && m < cbCallN ==> cbCallSelf[m] === cbList[m - old(cbCallN)] && cbCallOwner[m] === owner
+//@   loop#1 invariant forall j int :: {cbCallSelf[j]} j < old(cbCallN) ==> cbCallSelf[j] === old(cbCallSelf[j]) && cbCallOwner[j] === old(cbCallOwner[j])
 //@   loop#1 invariant forall i int :: {cbList[i]} 0 <= i && i < len(cbList) ==> cbList[i] != nil
 //@   loop#1 invariant ownerOK(owner)
 //@   loop#1 invariant chainsStable(old(heap[valueProperty.chain]), old(heap[valueProperty.key]), old(heap[valueProperty.val]), heap[valueProperty.chain], heap[valueProperty.key], heap[valueProperty.val], old(alloc))
